@@ -3,7 +3,7 @@
     [step_class] / [midi_pitch] of Model/MusicXml.v for every step letter, every alteration and every octave, and
     rejects every other step character. *)
 From Coq Require Import ZArith Bool Lia.
-From NS Require Import Gen.Tr Model.MusicXml.
+From NS Require Import Base.TrTac Gen.Tr Model.MusicXml.
 Local Open Scope Z_scope.
 
 (** code point of the step letter with model index i (C D E F G A B = 0..6) *)
@@ -15,13 +15,16 @@ Lemma tr_pitch_to_midi_pitch_eq i alter octave : 0 <= i <= 6 ->
   option_map (fun pc => midi_pitch pc alter octave) (step_class i).
 Proof.
   intros H. assert (i = 0 \/ i = 1 \/ i = 2 \/ i = 3 \/ i = 4 \/ i = 5 \/ i = 6) as C by lia.
-  destruct C as [->|[->|[->|[->|[->|[->| ->]]]]]]; reflexivity.
+  destruct C as [->|[->|[->|[->|[->|[->| ->]]]]]];
+    (reflexivity || (cbn [step_code step_class option_map]; unfold tr_pitch_to_midi_pitch, midi_pitch; tr_solve)).
 Qed.
 
 Lemma tr_pitch_to_midi_pitch_rejects c alter octave :
   ~ (65 <= c <= 71) -> tr_pitch_to_midi_pitch c alter octave = None.
 Proof.
-  intros H. unfold tr_pitch_to_midi_pitch. cbn zeta.
-  repeat match goal with |- context [?a =? ?b] => destruct (Z.eqb_spec a b); [exfalso; lia|] end.
-  reflexivity.
+  intros H. unfold tr_pitch_to_midi_pitch.
+  first [ solve [ cbn zeta;
+                  repeat match goal with |- context [?a =? ?b] => destruct (Z.eqb_spec a b); [exfalso; lia|] end;
+                  reflexivity ]
+        | tr_solve ].
 Qed.
